@@ -256,3 +256,97 @@ def must_follow(prog, body, site, goal, icc=(), include_drops=True, start_bb=Non
     if start_bb is not None:
         return body.path_exists(Site(start_bb, 0), body.is_return, avoid, start_inclusive=True)
     return body.path_exists(site, body.is_return, avoid)
+
+
+def bool_branch(body, call_site):
+    """For a call whose result is a bool consumed by a SwitchInt (possibly through copies and `!`),
+    return (true_bb, false_bb) or None."""
+    t = body.at(call_site)
+    if t.get("k") != "call" or t["dst"].get("p"):
+        return None
+    cur = t["dst"]["l"]
+    neg = False
+    seen = set()
+    # follow forward through blocks dominated by the call
+    for _ in range(12):
+        nxt = None
+        for s in body.sites():
+            st = body.at(s)
+            if st.get("k") == "assign" and not st["dst"].get("p"):
+                rv = st["rv"]
+                if rv["k"] == "use" and operand_local(rv["ops"][0]) == cur and not rv["ops"][0]["pl"].get("p"):
+                    if (s.bb, s.idx) in seen:
+                        continue
+                    seen.add((s.bb, s.idx))
+                    nxt = (st["dst"]["l"], neg)
+                elif rv["k"] == "unop" and rv.get("op") == "Not" and operand_local(rv["ops"][0]) == cur:
+                    if (s.bb, s.idx) in seen:
+                        continue
+                    seen.add((s.bb, s.idx))
+                    nxt = (st["dst"]["l"], not neg)
+            elif st.get("k") == "switch" and operand_local(st["discr"]) == cur and not st["discr"]["pl"].get("p"):
+                arms = dict((a[0], a[1]) for a in st["arms"])
+                f = arms.get(0, st["otherwise"])
+                tr = arms.get(1, st["otherwise"])
+                return (f, tr) if neg else (tr, f)
+        if nxt is None:
+            return None
+        cur, neg = nxt
+    return None
+
+
+def may_reach_set(prog, targets):
+    """All nkeys from which some key in targets is reachable through the call graph."""
+    rev = {}
+    for k, cs in prog.callgraph.items():
+        for c in cs:
+            rev.setdefault(c, set()).add(k)
+    seen = set()
+    dq = deque(targets)
+    while dq:
+        k = dq.popleft()
+        if k in seen:
+            continue
+        seen.add(k)
+        for p in rev.get(k, ()):
+            if p not in seen:
+                dq.append(p)
+    return seen
+
+
+SWITCH = "shuttle_engine::runtime::thread::continuation::switch"
+
+
+def mentions_field(body, site, field):
+    """Does the statement/terminator at site mention a place with projection field `Adt.field`?"""
+    st = body.at(site)
+    tag = "F:" + field
+    pls = list(body.places_read(st))
+    if st.get("k") in ("assign", "call") and "dst" in st:
+        pls.append(st["dst"])
+    if st.get("k") == "drop":
+        pls.append(st["pl"])
+    for pl in pls:
+        for p in pl.get("p", []):
+            if p.startswith("F:") and norm(p[2:]) == field:
+                return True
+    return False
+
+
+def operand_enum_variant(body, op, depth=0):
+    """Variant name when the operand is a constant enum value or a local built by a field-less aggregate."""
+    if op.get("k") == "const":
+        v = op.get("v", "")
+        return v.replace("const ", "").strip().rsplit("::", 1)[-1] if "::" in v else None
+    l = operand_local(op)
+    if l is None or op["pl"].get("p"):
+        return None
+    defs = [st for s, st in body.assigns() if st["dst"]["l"] == l and not st["dst"].get("p")]
+    if len(defs) != 1:
+        return None
+    rv = defs[0]["rv"]
+    if rv["k"] == "aggr" and rv.get("ak") == "adt":
+        return rv.get("variant")
+    if rv["k"] == "use" and depth < 4:
+        return operand_enum_variant(body, rv["ops"][0], depth + 1)
+    return None
